@@ -37,9 +37,11 @@ func (c *Ctx) exprFields(nt *types.Named) (single []string, lists []string) {
 
 // visitsOf: calls of the dispatcher in f with the child field (of f's node parameter) they visit.
 type visit struct {
-	Call  *ssa.Call
-	Field string
-	ViaAt bool
+	Call  *ssa.Call     // the dispatcher call
+	Field string        // the child field of the node it visits
+	ViaAt bool          // through list.At(i)
+	Fn    *ssa.Function // the function containing Call (the handler, or a helper it delegates to)
+	Via   *ssa.Call     // the handler's call of that helper (nil when Call is in the handler itself)
 }
 
 func (c *Ctx) nodeParamOf(f *ssa.Function, typ string) *ssa.Parameter {
@@ -51,25 +53,79 @@ func (c *Ctx) nodeParamOf(f *ssa.Function, typ string) *ssa.Parameter {
 	return nil
 }
 
+// visitsOf lists the dispatcher calls that visit children of `node` in f, also inside helpers to
+// which f hands the node or one of its child lists (one level of delegation per step, depth 2).
 func (c *Ctx) visitsOf(f *ssa.Function, disp *ssa.Function, node *ssa.Parameter) []visit {
+	return c.visitsOfDepth(f, disp, node, "", 0)
+}
+
+// fixedField: when non-empty, `node` is itself the child list (or child) named so of the original node.
+func (c *Ctx) visitsOfDepth(f *ssa.Function, disp *ssa.Function, node *ssa.Parameter, fixedField string, depth int) []visit {
 	var out []visit
+	fieldOf := func(rt Root) (string, bool) {
+		if rt.Kind != "param" || rt.V != ssa.Value(node) {
+			return "", false
+		}
+		if fixedField != "" {
+			if len(rt.Path) == 0 {
+				return fixedField, true
+			}
+			return "", false
+		}
+		if len(rt.Path) == 1 {
+			return rt.Path[0], true
+		}
+		return "", false
+	}
 	instrs(f, func(b *ssa.BasicBlock, i int, in ssa.Instruction) {
 		call, ok := in.(*ssa.Call)
-		if !ok || calleeOf(call) != disp {
+		if !ok {
 			return
 		}
-		for _, a := range call.Call.Args {
-			for _, rt := range plainOrigins.Roots(a) {
-				switch {
-				case rt.Kind == "param" && rt.V == ssa.Value(node) && len(rt.Path) == 1:
-					out = append(out, visit{call, rt.Path[0], false})
-				case rt.Kind == "call" && rt.Fn != nil && (fnBase(rt.Fn) == "At" || fnBase(rt.Fn) == "NodeAt") && typeName(recvType(rt.Fn)) == "NodeList":
-					at := rt.V.(*ssa.Call)
-					for _, r2 := range plainOrigins.Roots(at.Call.Args[0]) {
-						if r2.Kind == "param" && r2.V == ssa.Value(node) && len(r2.Path) == 1 {
-							out = append(out, visit{call, r2.Path[0], true})
+		cal := calleeOf(call)
+		if cal == disp {
+			for _, a := range call.Call.Args {
+				for _, rt := range plainOrigins.Roots(a) {
+					if fld, ok := fieldOf(rt); ok && fixedField == "" {
+						out = append(out, visit{call, fld, false, f, nil})
+					} else if rt.Kind == "call" && rt.Fn != nil && (fnBase(rt.Fn) == "At" || fnBase(rt.Fn) == "NodeAt") && typeName(recvType(rt.Fn)) == "NodeList" {
+						at := rt.V.(*ssa.Call)
+						for _, r2 := range plainOrigins.Roots(at.Call.Args[0]) {
+							if fld, ok := fieldOf(r2); ok {
+								out = append(out, visit{call, fld, true, f, nil})
+							}
 						}
 					}
+				}
+			}
+			return
+		}
+		// delegation to a helper
+		if cal == nil || !c.inModule(cal) || depth >= 2 || len(cal.Blocks) == 0 || cal == f {
+			return
+		}
+		for ai, a := range call.Call.Args {
+			if ai >= len(cal.Params) {
+				continue
+			}
+			for _, rt := range plainOrigins.Roots(a) {
+				if rt.Kind != "param" || rt.V != ssa.Value(node) {
+					continue
+				}
+				var sub []visit
+				switch {
+				case fixedField == "" && len(rt.Path) == 0:
+					sub = c.visitsOfDepth(cal, disp, cal.Params[ai], "", depth+1)
+				case fixedField == "" && len(rt.Path) == 1:
+					sub = c.visitsOfDepth(cal, disp, cal.Params[ai], rt.Path[0], depth+1)
+				case fixedField != "" && len(rt.Path) == 0:
+					sub = c.visitsOfDepth(cal, disp, cal.Params[ai], fixedField, depth+1)
+				}
+				for _, v := range sub {
+					if v.Via == nil {
+						v.Via = call
+					}
+					out = append(out, v)
 				}
 			}
 		}
@@ -322,15 +378,19 @@ func c10Children(c *Ctx, d *Dispatcher) {
 					}
 				}
 			}
-			okLoop, why := c.countingLoopOver(h, at)
+			okLoop, why := c.countingLoopOver(hit.Fn, at)
 			c.R.Check(rule, cons, c.P.InstrPos(hit.Call), okLoop, "every element of "+fld+" must be visited: "+why)
-			c.R.Check("C10.child-errors", cons, c.P.InstrPos(hit.Call), c.errChecked(h, hit.Call), "the error of visiting an element of "+fld+" must be returned")
+			c.R.Check("C10.child-errors", cons, c.P.InstrPos(hit.Call), c.errChecked(hit.Fn, hit.Call), "the error of visiting an element of "+fld+" must be returned")
 			// guards before the loop may only skip an absent / empty list
-			c.R.Check(rule, cons+":guards", c.P.InstrPos(hit.Call), c.onlyEmptinessGuards(h, hit.Call, node, fld), "the element loop must not be skipped by a condition other than the list being absent or empty")
+			guardsOK := true
+			if hit.Via == nil {
+				guardsOK = c.onlyEmptinessGuards(h, hit.Call, node, fld)
+			}
+			c.R.Check(rule, cons+":guards", c.P.InstrPos(hit.Call), guardsOK, "the element loop must not be skipped by a condition other than the list being absent or empty")
 		}
 	}
 	c.R.Analysed["value_children"] = nChildren
-	c.R.Floor(rule, 12)
+	c.R.Floor(rule, 10)
 }
 
 // errChecked: the result of call is returned directly, or tested `!= nil` with the true edge returning it.
